@@ -664,7 +664,7 @@ func (fr *frame) resolveName(name string, blk *ssa.BasicBlock, limit ssa.Instruc
 	if v, ok := fr.lookupLocalBefore(name, blk, limit, st); ok {
 		return v, true
 	}
-	if fr.transparent && fr.parent != nil && fr.site != nil {
+	if (fr.transparent || fr.fn.Parent() != nil) && fr.parent != nil && fr.site != nil && fr.site.Parent() == fr.parent.fn {
 		return fr.parent.resolveName(name, fr.site.Block(), fr.site, st)
 	}
 	return TV{}, false
